@@ -343,6 +343,7 @@ def write_evidence(pid, tier, seed, mod, scns, results, wall, nviol, known_lines
         "trusted_base": ["z3 %s" % _z3v(), "torch ATen kernels by contract (cross-validated at the witness on every call)",
                          "symten handlers (/verif/symten)"] + meta.get("trusted", []),
         "repo_head": _repo_head(),
+        "slowest_scenarios_by_solver_time": sorted([(round(r.get("solver_s", 0) or 0, 1), s["sid"]) for s, r in zip(scns, results)], reverse=True)[:5],
     }
     if meta.get("level") == "model_checking":
         cov["states"] = max(1, sum(int((r.get("extra") or {}).get("states", (r.get("extra") or {}).get("paths", 0)) or 0) for r in results) or len(hashes))
